@@ -61,6 +61,12 @@ def gen_config(rng, i, tier="quick"):
         # and must not be counted
         28: dict(fe="single", nser=1, K=2, limit=3, W=2, N=2, eps=1e-7, biased=True, n_regimes=2, scale=1.0, lam_form="float"),
         29: dict(fe="single", nser=1, K=3, limit=3, W=3, N=2, eps=1e-9, biased=False, n_regimes=3, scale=1.0, lam_form="float"),
+        # data whose LEVEL is far above its spread (absolute coordinates, epoch times): where one-pass moment formulas
+        # (E[xx'] - mm', sum of squares - n m^2) lose every digit while the two-pass definitions do not
+        30: dict(fe="single", nser=1, K=3, limit=4, W=2, N=2, eps=0, biased=False, n_regimes=3, scale=1.0, offset=1e6,
+                 lam_form="float", scalar_beta=True, beta=2.0),
+        31: dict(fe="joint", nser=2, K=2, limit=3, W=1, N=3, eps=0, biased=True, n_regimes=2, scale=1.0, offset=1e8,
+                 lam_form="float", scalar_beta=True, beta=2.0),
         # a matrix sparsity weight that is NOT symmetric (the solver reads its upper triangle): a tempting target for an
         # in-place symmetrisation of the caller's matrix (C19)
         26: dict(fe="single", nser=1, K=2, limit=2, W=2, lam_form="matrix_asym", readonly=False, fortran=False, n_regimes=2),
@@ -126,7 +132,7 @@ def gen_config(rng, i, tier="quick"):
         c["beta_form"] = "vector_var"
     if forced.get("scalar_beta"):
         c["beta_form"] = "float"
-    for key in ("lam_form", "readonly", "fortran"):
+    for key in ("lam_form", "readonly", "fortran", "offset"):
         if key in forced:
             c[key] = forced[key]
     if c["lam_form"] == "matrix_asym" and c["lam"] == 0.0:
